@@ -22,6 +22,7 @@ import (
 
 	"github.com/awslabs/ar-go-tools/analysis/summaries"
 	"github.com/awslabs/ar-go-tools/internal/formatutil"
+	"github.com/awslabs/ar-go-tools/internal/verifhook"
 	"golang.org/x/tools/go/ssa"
 )
 
@@ -170,6 +171,7 @@ func (g *InterProceduralFlowGraph) BuildGraph() {
 				if summary == nil {
 					continue
 				}
+				verifhook.At("dataflow.BuildGraph.reportSummary")
 				_, _ = summariesFile.WriteString(fmt.Sprintf("%s:\n", summary.Parent.String()))
 				summary.Print(false, summariesFile)
 				_, _ = summariesFile.WriteString("\n")
